@@ -82,13 +82,16 @@ VW_HDR = ['label', 'f1', 'f2']
 VW_FW = {'A': 'f1', 'B': 'f2'}
 
 
-def vw_problem(t1, t2, two):
+VW_EXTRA = ['', '|ZZ zz_q ', '| ']      # nothing / a section of a namespace the map does not declare / an empty section, before namespace B
+
+
+def vw_problem(t1, t2, two, extra=0):
     """'1 |A t1 [t2] |B b_y': the tokens of namespace A land, joined by '-' and without the two-character prefix, in column f1"""
     import types as _t
     loader.use_repo_on_syspath()
     import outrank.core_utils as cu
     toks = [t1, t2] if two else [t1]
-    line = '1 |A ' + ' '.join(toks) + ' |B b_y\n'
+    line = '1 |A ' + ' '.join(toks) + ' ' + VW_EXTRA[extra] + '|B b_y\n'
     got = cu.generic_line_parser(line, None, _t.SimpleNamespace(data_source='ob-vw'), dict(VW_FW), list(VW_HDR))
     exp = ['1', '-'.join(toks)[2:], 'y']
     if list(got) != exp:
@@ -105,15 +108,16 @@ def run_vw(job):
     st = {}
 
     def setup(ctx):
-        st['a'], st['b'], st['two'] = z3.Int('t1'), z3.Int('t2'), z3.Bool('two')
-        ctx.assume(st['a'] >= 0, st['a'] < len(VW_TOKENS), st['b'] >= 0, st['b'] < len(VW_TOKENS))
+        st['a'], st['b'], st['two'], st['x'] = z3.Int('t1'), z3.Int('t2'), z3.Bool('two'), z3.Int('extra')
+        ctx.assume(st['a'] >= 0, st['a'] < len(VW_TOKENS), st['b'] >= 0, st['b'] < len(VW_TOKENS), st['x'] >= 0, st['x'] < len(VW_EXTRA))
 
     def body(ctx, out):
         t1, t2 = VW_TOKENS[int(SInt(st['a'], 0, len(VW_TOKENS) - 1))], VW_TOKENS[int(SInt(st['b'], 0, len(VW_TOKENS) - 1))]
         two = bool(symx.SBool(st['two']))
-        w = {'cond': 'vw_tokens', 'fn': 'vw_tokens', 't1': t1, 't2': t2, 'two': two}
+        extra = int(SInt(st['x'], 0, len(VW_EXTRA) - 1))
+        w = {'cond': 'vw_tokens', 'fn': 'vw_tokens', 't1': t1, 't2': t2, 'two': two, 'extra': extra}
         try:
-            p = vw_problem(t1, t2, two)
+            p = vw_problem(t1, t2, two, extra)
         except Exception as e:
             p = f'{type(e).__name__}: {e}'
         if p or out.twin:
@@ -142,7 +146,7 @@ def run_job(job):
 def replay(w):
     if w.get('fn') == 'vw_tokens':
         try:
-            p = vw_problem(w['t1'], w['t2'], w['two'])
+            p = vw_problem(w['t1'], w['t2'], w['two'], w.get('extra', 0))
         except Exception as e:
             p = f'{type(e).__name__}: {e}'
         if p:
